@@ -238,6 +238,8 @@ pub fn unwatch_all(sender: &Sender<String>, db: &Database) -> Response {
         .write()
         .expect("Error on db.watchers.map.lock")
         .clone();
+    #[cfg(nundb_verif)]
+    let watchers: std::collections::BTreeMap<String, Vec<Sender<String>>> = watchers.into_iter().collect();
     for (key, _val) in watchers.iter() {
         unwatch_key(&key, &sender, &db);
     }
